@@ -37,6 +37,7 @@ import (
 	"google.golang.org/grpc/status"
 	"google.golang.org/protobuf/encoding/prototext"
 	"google.golang.org/protobuf/proto"
+	"google.golang.org/protobuf/reflect/protoreflect"
 
 	gpb "github.com/openconfig/gnmi/proto/gnmi"
 	aftpb "github.com/openconfig/gribi/v1/proto/gribi_aft"
@@ -1223,9 +1224,48 @@ func (r *RIBHolder) GetNextHopGroup(id uint64) (*aft.Afts_NextHopGroup, bool) {
 	return n, true
 }
 
+// checkEnumValues returns an error if a populated enum field of m, or of a
+// message nested in it, carries a number that the enum type does not define.
+// Such numbers are valid on the wire (proto3 enums are open), but protomap
+// resolves every enum value through its descriptor and panics for them.
+func checkEnumValues(m protoreflect.Message) error {
+	var err error
+	check := func(fd protoreflect.FieldDescriptor, v protoreflect.Value) error {
+		switch fd.Kind() {
+		case protoreflect.EnumKind:
+			if fd.Enum().Values().ByNumber(v.Enum()) == nil {
+				return fmt.Errorf("invalid value %d for enum field %s", v.Enum(), fd.FullName())
+			}
+		case protoreflect.MessageKind, protoreflect.GroupKind:
+			return checkEnumValues(v.Message())
+		}
+		return nil
+	}
+	m.Range(func(fd protoreflect.FieldDescriptor, v protoreflect.Value) bool {
+		switch {
+		case fd.IsList():
+			for i := 0; i < v.List().Len() && err == nil; i++ {
+				err = check(fd, v.List().Get(i))
+			}
+		case fd.IsMap():
+			v.Map().Range(func(_ protoreflect.MapKey, mv protoreflect.Value) bool {
+				err = check(fd.MapValue(), mv)
+				return err == nil
+			})
+		default:
+			err = check(fd, v)
+		}
+		return err == nil
+	})
+	return err
+}
+
 // candidateRIB takes the input set of Afts and returns them as a aft.RIB pointer
 // that can be merged into an existing RIB.
 func candidateRIB(a *aftpb.Afts) (*aft.RIB, error) {
+	if err := checkEnumValues(a.ProtoReflect()); err != nil {
+		return nil, err
+	}
 	paths, err := protomap.PathsFromProto(a)
 	if err != nil {
 		return nil, err
